@@ -15,7 +15,7 @@ import (
 var ghostBuiltins = map[string]bool{
 	"requires": true, "ensures": true, "assert": true, "assume": true, "imp": true, "iff": true, "old": true,
 	"forall": true, "exists": true, "modifiesTail": true, "modifiesElems": true, "modifiesPtr": true, "modifiesAll": true,
-	"freshSlice": true, "sameBase": true, "bytesEq": true, "strBytesEq": true, "allocated": true, "unchangedElems": true,
+	"freshSlice": true, "sameBase": true, "sameArray": true, "disjointFromTail": true, "bytesEq": true, "strBytesEq": true, "allocated": true, "unchangedElems": true,
 	"covers": true,
 }
 
@@ -148,10 +148,17 @@ func (c *VC) evalCall(st *State, call *ast.CallExpr) []*Term {
 		if fi != nil && fi.Ghost && ghostBuiltins[fn.Name()] {
 			return c.ghostBuiltin(st, fn.Name(), call)
 		}
+		if fi != nil && fi.Kind == "spec" && fi.Dir.Opaque {
+			args, _ := c.evalArgs(st, fn, call)
+			return c.specUF(st, fi, args)
+		}
 		if r, ok := c.intrinsic(st, fn, call); ok {
 			return r
 		}
 		args, ok := c.evalArgs(st, fn, call)
+		if ok && fi != nil && fi.Kind == "lemma" {
+			return c.callLemma(st, fi, args, call)
+		}
 		if ok && fi != nil {
 			if fi.Contract != nil && !c.shouldInline(fi) {
 				return c.callByContract(st, fi, args, call)
@@ -306,7 +313,7 @@ func (c *VC) convert(st *State, arg ast.Expr, to types.Type, call *ast.CallExpr)
 		if tIsBasic && tb.Info()&types.IsString != 0 {
 			if eb, ok := fs.Elem().Underlying().(*types.Basic); ok && eb.Kind() == types.Uint8 {
 				_, h := c.sliceHeap(st, c.byteSort())
-				return mkCtor(c.strSort(), mkSelect(h, mkField(v, "sl_base")), mkField(v, "sl_off"), mkField(v, "sl_len"))
+				return mkCtor(c.strSort(), c.sel(h, mkField(v, "sl_base")), mkField(v, "sl_off"), mkField(v, "sl_len"))
 			}
 		}
 		if _, ok := tu.(*types.Slice); ok {
@@ -439,6 +446,9 @@ func (c *VC) rowCopy(st *State, dst *Term, dpos *Term, src *Term, spos *Term, n 
 	srcIdx := c.binop(token.ADD, spos, c.binop(token.SUB, i, dpos, it), it)
 	body := mkEq(mkSelect(r, i), mkIte(in, mkSelect(src, srcIdx), mkSelect(dst, i)))
 	c.facts = append(c.facts, mkForall([]*Term{i}, body, mkSelect(r, i)))
+	if !c.noName {
+		c.rowCopies[r.Op] = rowCopyDef{dst, dpos, src, spos, n}
+	}
 	return r
 }
 
@@ -451,7 +461,7 @@ func (c *VC) builtinAppend(st *State, call *ast.CallExpr) *Term {
 	s = c.coerce(st, s, c.typeOf(call.Args[0]), t)
 	base, off, ln, cp := mkField(s, "sl_base"), mkField(s, "sl_off"), mkField(s, "sl_len"), mkField(s, "sl_cap")
 	hn, h := c.sliceHeap(st, es)
-	row := mkSelect(h, base)
+	row := c.sel(h, base)
 	var k *Term // number of appended elements
 	var nrow *Term
 	start := c.binop(token.ADD, off, ln, it)
@@ -459,13 +469,13 @@ func (c *VC) builtinAppend(st *State, call *ast.CallExpr) *Term {
 		srcT := c.typeOf(call.Args[1])
 		src := c.eval(st, call.Args[1])
 		hn, h = c.sliceHeap(st, es)
-		row = mkSelect(h, base)
+		row = c.sel(h, base)
 		if b, ok := srcT.Underlying().(*types.Basic); ok && b.Info()&types.IsString != 0 {
 			k = mkField(src, "st_len")
 			nrow = c.rowCopy(st, row, start, mkField(src, "st_arr"), mkField(src, "st_off"), k)
 		} else {
 			k = mkField(src, "sl_len")
-			srow := mkSelect(h, mkField(src, "sl_base"))
+			srow := c.sel(h, mkField(src, "sl_base"))
 			nrow = c.rowCopy(st, row, start, srow, mkField(src, "sl_off"), k)
 		}
 	} else {
@@ -474,7 +484,7 @@ func (c *VC) builtinAppend(st *State, call *ast.CallExpr) *Term {
 			vals = append(vals, c.coerce(st, c.eval(st, a), c.typeOf(a), elemT))
 		}
 		hn, h = c.sliceHeap(st, es)
-		row = mkSelect(h, base)
+		row = c.sel(h, base)
 		k = c.idxLit(int64(len(vals)))
 		nrow = row
 		for j, v := range vals {
@@ -492,11 +502,11 @@ func (c *VC) builtinAppend(st *State, call *ast.CallExpr) *Term {
 	c.addFact(tTrue, mkAnd(c.cmp(token.GEQ, ncap, nlen, it), c.cmp(token.LEQ, ncap, mx, it), c.inRange(ncap, it)))
 	c.assumptions[fmt.Sprintf("slice lengths and capacities stay below 2^%d (an append never exceeds it)", maxLenBits)] = true
 	st.pc = mkAnd(st.pc, c.cmp(token.LEQ, nlen, mx, it))
-	nbase := mkIte(inplace, base, st.alloc)
+	nbase := c.name("abase", mkIte(inplace, base, st.alloc))
 	c.checkWrite(st, hn, nbase, start, c.binop(token.ADD, start, k, it), call.Pos(), exprText(c.prog.fset, call))
 	st.heaps[hn] = c.name(hn, mkStore(h, nbase, nrow))
 	st.alloc = c.name("alloc", mkIte(inplace, st.alloc, mk("+", sortInt, st.alloc, intLit64(1))))
-	return mkCtor(c.sliceSort(), c.name("abase", nbase), off, nlen, c.name("acap", mkIte(inplace, cp, ncap)))
+	return mkCtor(c.sliceSort(), nbase, off, nlen, c.name("acap", mkIte(inplace, cp, ncap)))
 }
 
 func (c *VC) builtinCopy(st *State, call *ast.CallExpr) *Term {
@@ -512,12 +522,12 @@ func (c *VC) builtinCopy(st *State, call *ast.CallExpr) *Term {
 	if b, ok := srcT.Underlying().(*types.Basic); ok && b.Info()&types.IsString != 0 {
 		sl, srow, soff = mkField(src, "st_len"), mkField(src, "st_arr"), mkField(src, "st_off")
 	} else {
-		sl, srow, soff = mkField(src, "sl_len"), mkSelect(h, mkField(src, "sl_base")), mkField(src, "sl_off")
+		sl, srow, soff = mkField(src, "sl_len"), c.sel(h, mkField(src, "sl_base")), mkField(src, "sl_off")
 	}
 	dl := mkField(d, "sl_len")
 	n := c.name("ncopy", mkIte(c.cmp(token.LSS, dl, sl, it), dl, sl))
 	base := mkField(d, "sl_base")
-	row := mkSelect(h, base)
+	row := c.sel(h, base)
 	nrow := c.rowCopy(st, row, mkField(d, "sl_off"), srow, soff, n)
 	c.checkWrite(st, hn, base, mkField(d, "sl_off"), c.binop(token.ADD, mkField(d, "sl_off"), n, it), call.Pos(), exprText(c.prog.fset, call))
 	st.heaps[hn] = c.name(hn, mkStore(h, base, nrow))
@@ -625,10 +635,10 @@ func (c *VC) havocCall(st *State, fn *types.Func, args []*Term, call *ast.CallEx
 			switch u := ptypes[i].Underlying().(type) {
 			case *types.Slice:
 				_, h := c.sliceHeap(st, c.sortOf(u.Elem()))
-				uargs = append(uargs, mkSelect(h, mkField(a, "sl_base")))
+				uargs = append(uargs, c.sel(h, mkField(a, "sl_base")))
 			case *types.Pointer:
 				_, h := c.ptrHeap(st, c.sortOf(u.Elem()))
-				uargs = append(uargs, mkSelect(h, a))
+				uargs = append(uargs, c.sel(h, a))
 			}
 		}
 		for i, rt := range rts {
@@ -775,27 +785,83 @@ func resultObjs(fi *FuncInfo) []*types.Var {
 }
 
 func (c *VC) inlineCall(st *State, fi *FuncInfo, args []*Term, call *ast.CallExpr) []*Term {
-	if c.inlineDepth > 12 {
+	if c.inlineDepth > 40 {
 		c.unsupportedf(call.Pos(), "inline depth exceeded at %s", fi.Name)
 		return c.havocCall(st, fi.Obj, args, call)
 	}
+	depth := 0
 	for _, f := range c.frames {
 		if f.fi == fi {
-			// recursion: spec functions become uninterpreted with an unfolding axiom
-			if fi.Kind == "spec" {
-				return c.specUF(st, fi, args)
-			}
-			c.unsupportedf(call.Pos(), "recursive inline of %s", fi.Name)
-			return c.havocCall(st, fi.Obj, args, call)
+			depth++
 		}
 	}
+	if st.dead() {
+		// unreachable call: any value will do
+		var rs []*Term
+		for _, r := range resultObjs(fi) {
+			rs = append(rs, c.zero(r.Type()))
+		}
+		return rs
+	}
+	if depth > 0 && depth > fi.Dir.Unfold {
+		// recursion: spec functions become uninterpreted with an unfolding axiom
+		if fi.Kind == "spec" {
+			return c.specUF(st, fi, args)
+		}
+		c.unsupportedf(call.Pos(), "recursive inline of %s", fi.Name)
+		return c.havocCall(st, fi.Obj, args, call)
+	}
 	c.inlined[fi.Name] = true
+	isSpec := fi.Kind == "spec"
+	var cacheKey string
+	saveNoName := c.noName
+	if isSpec {
+		// spec functions are pure: evaluate once per (arguments, heap) under the trivial path condition
+		var sb strings.Builder
+		sb.WriteString(fi.Name)
+		bound := false
+		for _, a := range args {
+			sb.WriteString("|")
+			as := a.String()
+			if strings.Contains(as, "?") {
+				bound = true
+			}
+			sb.WriteString(as)
+		}
+		readsHeap := false
+		for _, p := range paramObjs(fi) {
+			switch p.Type().Underlying().(type) {
+			case *types.Slice, *types.Pointer, *types.Map, *types.Interface, *types.Struct:
+				readsHeap = true
+			}
+		}
+		if readsHeap {
+			for _, hn := range sortedKeysT(st.heaps) {
+				sb.WriteString("|" + hn + "=")
+				sb.WriteString(st.heaps[hn].String())
+			}
+		}
+		cacheKey = sb.String()
+		if len(cacheKey) < 20000 {
+			if v, ok := c.specCache[cacheKey]; ok {
+				return v
+			}
+		} else {
+			cacheKey = ""
+		}
+		if c.noName && !bound && c.quantDepth > 0 {
+			c.noName = false
+		}
+	}
 	c.inlineDepth++
-	if fi.Kind == "spec" {
+	if isSpec {
 		c.ghost++
 	}
 	fr := c.pushFrame(fi)
 	sub := &State{env: map[types.Object]*Term{}, heaps: st.heaps, alloc: st.alloc, pc: st.pc}
+	if isSpec {
+		sub.pc = tTrue
+	}
 	sub.heaps = map[string]*Term{}
 	for k, v := range st.heaps {
 		sub.heaps[k] = v
@@ -831,6 +897,13 @@ func (c *VC) inlineCall(st *State, fi *FuncInfo, args []*Term, call *ast.CallExp
 		c.ghost--
 	}
 	c.inlineDepth--
+	if isSpec {
+		c.noName = saveNoName
+		if cacheKey != "" {
+			c.specCache[cacheKey] = vals
+		}
+		return vals
+	}
 	st.heaps, st.alloc, st.pc = merged.heaps, merged.alloc, merged.pc
 	return vals
 }
@@ -959,7 +1032,7 @@ func (c *VC) specUF(st *State, fi *FuncInfo, args []*Term) []*Term {
 		}
 		if u, ok := ps[i].Type().Underlying().(*types.Slice); ok {
 			_, h := c.sliceHeap(st, c.sortOf(u.Elem()))
-			uargs = append(uargs, mkSelect(h, mkField(a, "sl_base")))
+			uargs = append(uargs, c.sel(h, mkField(a, "sl_base")))
 		}
 	}
 	res := resultObjs(fi)
